@@ -59,6 +59,7 @@ def driver_source(ir, cfg, plain_types=(), registry=True):
     for e in ir.get("errors", []):
         p = rust_path(e["errorName"]["package"], e["errorName"]["name"], strip)
         uses.append("use %s as _;" % p)
+        arms.append('        "%s" => labrt::lab::value_ops::<%s>(c).or_else(|| labrt::lab::error_ops::<%s>(c)),' % (e["errorName"]["name"], p, p))
     for s in ir.get("services", []):
         pkg, n = s["serviceName"]["package"], s["serviceName"]["name"]
         for ident in (n, "Async" + n, n + "Client", n + "AsyncClient", n + "Endpoints", "Async" + n + "Endpoints"):
@@ -80,6 +81,7 @@ conjure-object = { path = "/repo/conjure-object" }
 conjure-error = { path = "/repo/conjure-error" }
 conjure-http = { path = "/repo/conjure-http" }
 conjure-serde = { path = "/repo/conjure-serde" }
+serde = "1.0"
 labrt = { path = "%s/harness/labrt" }
 serde_json = "1.0"
 """
